@@ -2155,7 +2155,11 @@ def _yaml_str(s: str) -> str:
 def _break_yaml(g: G, text: str) -> str:
     if g.p(0.12):
         g.tags.add("yaml-malformed")
-        k = g.ch(["syntax", "type", "unknown-key", "empty", "scalar"])
+        k = g.ch(["syntax", "type", "unknown-key", "empty", "scalar", "escape", "escape"])
+        if k == "escape":
+            # a YAML escape at the end of the first double-quoted scalar: a lone surrogate is no character (not encodable
+            # as UTF-8, hence not as BSON), the others are ordinary text
+            return text.replace('"\n', " " + g.ch(["\\ud800", "\\udfff x", "\\u00e9", "\\U0001F600", "\\x07"]) + '"\n', 1)
         if k == "syntax":
             return text.replace(": ", ": [", 1)
         if k == "type":
